@@ -226,6 +226,7 @@ Proof.
     assert (c1 = c).
     { destruct st; try discriminate. cbn [exec] in E. destruct (find_ctable table c); [|discriminate].
       destruct (negb (has_ccol col c0)); [discriminate|].
+      destruct (negb (value_resolves (ccol_names c0) value)); [discriminate|].
       destruct w; [|destruct (has_ccol c2 c0); [|discriminate]|destruct (has_ccol c2 c0); [|discriminate]];
         (destruct (fk && _)%bool; [discriminate|]); now injection E. }
     subst c1. apply IH in H; [|exact H2]. replace (i + S (List.length before)) with (S i + List.length before) by lia. exact H.
